@@ -184,9 +184,15 @@ theorem valid_var_factor : (pool[30]'(by decide)).Valid := by
   have h1 : (Fin.ofNat 7 1 : F) = 1 := rfl
   rw [h1]; ring
 
+theorem valid_sum_infactor_var : (pool[31]'(by decide)).Valid := by
+  intro ρ h env
+  simp only [pool, List.getElem_cons_succ, List.getElem_cons_zero] at h ⊢
+  have hc : FreeIn ρ "i" "a" := h ("i", "a") (by simp)
+  simp only [evalP, hc env, sum7]; ring
+
 theorem pool_valid : ∀ r ∈ pool, r.Valid := by
   intro r hr
-  have hlen : pool.length = 31 := by decide
+  have hlen : pool.length = 32 := by decide
   obtain ⟨i, hi, rfl⟩ := List.getElem_of_mem hr
   rw [hlen] at hi
   interval_cases i
@@ -221,6 +227,7 @@ theorem pool_valid : ∀ r ∈ pool, r.Valid := by
   · exact valid_sum_infactor_f3
   · exact valid_sum_infactor_f4
   · exact valid_var_factor
+  · exact valid_sum_infactor_var
 
 /-- the deliberately invalid rules are indeed invalid (witness: constant interpretations) -/
 theorem bad_sum_const_invalid : ¬ (badPool[1]'(by decide)).Valid := by
